@@ -130,7 +130,14 @@ def run_case(case, with_bad=True, coalesce=False):
     seq += [('g', good(100 + i, as4)) for i in range(case['post'])]
     if coalesce:
         # the hostile message and everything after it arrive in one TCP segment
-        seq = seq[:case['pre']] + [('c', b''.join(d for _, d in seq[case['pre']:]))]
+        joined = b''.join(d for _, d in seq[case['pre']:])
+        if isinstance(coalesce, (list, tuple)):
+            # ... or in three: the hostile message is cut behind its header (+x octets), and the segment that completes it ends
+            # k octets into the header of the next message
+            x, k = coalesce
+            cuts = sorted(set(c_ for c_ in (min(19 + x, len(bad) - 1), len(bad) + k) if 0 < c_ < len(joined)))
+            joined = [joined[a:b] for a, b in zip([0] + cuts, cuts + [len(joined)])]
+        seq = seq[:case['pre']] + [('c', joined)]
     per_msg = []
     mode_known = True
     first_post = case['pre'] + (1 if with_bad else 0)
@@ -151,9 +158,13 @@ def run_case(case, with_bad=True, coalesce=False):
         st0 = sim.state
         mark = sim.mark()
         nerr = len(sim.errors)
+        pieces = data if isinstance(data, list) else [data]
+        data = b''.join(pieces)
         lim = budget.allowance(len(data))
+        delivered = True
         with budget.region(lim) as reg:
-            delivered = r.peer_send(c, data)
+            for piece in pieces:
+                delivered = bool(r.peer_send(c, piece)) and delivered
         r.settle(fire_due=True)
         if reg.exceeded:
             out.append(('budget@%s' % reg.where, 'dataReceived did not finish within %d line events on a %d-octet %s message'
@@ -211,7 +222,7 @@ def check_case(case):
         # metamorphic: the same octets in one TCP segment (hostile message first, the good ones behind it) are handled alike
         state_sep = sim.state
         sep = [x for _, _, r_ in per_msg[bad_idx:] for x in r_]
-        out3, per3, sim3 = run_case(case, True, coalesce=True)
+        out3, per3, sim3 = run_case(case, True, coalesce=case['coalesce'])
         out += [f for f in out3 if not f[0].startswith('harness:')]
         if not out3 and len(per3) == bad_idx + 1:
             one = list(per3[bad_idx][2])
@@ -345,7 +356,8 @@ case_strategy = st.builds(
     st.sampled_from(['ESTABLISHED', 'ESTABLISHED', 'ESTABLISHED', 'OPENCONFIRM', 'OPENSENT']),
     st.integers(0, 2), st.integers(1, 3), bad_message(), st.booleans(),
     st.one_of(st.just([]), st.just([]), st.lists(st.sampled_from(['close', 'marker', 'cease', 'silence', 'fewcaps-marker']), min_size=1, max_size=2)),
-    st.sampled_from([180, 180, 0, 0, 3, 90]), st.booleans(), st.booleans(), st.booleans(), st.sampled_from([False, False, True]))
+    st.sampled_from([180, 180, 0, 0, 3, 90]), st.booleans(), st.booleans(), st.booleans(),
+    st.one_of(st.sampled_from([False, False, True]), st.tuples(st.sampled_from([0, 1, 40]), st.integers(1, 18)).map(list)))
 
 
 def shards(tier):
